@@ -142,6 +142,33 @@ def tables(ctx):
             ctx.cov["traces_validated_against_impl"] += sum(1 for x in rows if x["e"] == "Compile")
     ctx.cov["compiles"] = ncomp
     ctx.cov["compile_descriptions"] = len(lines)
+    # termination at the optimisation level of a release build: a loop whose exit relies on signed overflow
+    # ends after 2^32 steps at -O1 and never at -O2.  Every opcode form is compiled once more for every target
+    # with the -O2 library (no sanitizers) under the harness's watchdog; a compile that does not return is a
+    # Died event, which Trace_Compile does not accept.
+    olines = [l for l in lines if l.startswith("O ")]
+    binary2 = build_harness("h_compile", "hooko2")
+    def one2(a):
+        i, ls = a
+        bf = os.path.join(ctx.work, "cmpo2_%d.txt" % i)
+        tf = os.path.join(ctx.work, "cmpo2_trace_%d.ndjson" % i)
+        open(bf, "w").write("\n".join(ls) + "\n")
+        if os.path.exists(tf):
+            os.unlink(tf)
+        rc, out = sh([binary2, bf, "all"], timeout=3000, env={"ORC_VERIF_TRACE": tf, "H_WATCHDOG": "20"})
+        if rc not in (0, 3):
+            raise MachineryError("h_compile (-O2) failed rc=%d: %s" % (rc, out[-2000:]))
+        return tf
+    n2 = 0
+    for i, tf in enumerate(parallel(one2, list(enumerate(chunks(olines, NCPU))))):
+        rows = read_ndjson(tf)
+        n2 += sum(1 for r in rows if r["e"] == "Compile")
+        r = T.validate("Trace_Compile", "Trace_Compile.cfg", tf, timeout=1200)
+        if not r["accepted"]:
+            bad = rows[r["rejected_at"] - 1]
+            rp = ctx.save_replay("compile_o2_%d.ndjson" % i, json.dumps(bad) + "\n")
+            ctx.violation("compile event of the -O2 build rejected (%s): %s" % (r["why"], json.dumps(bad)[:300]), rp)
+    ctx.cov["compiles_at_O2"] = n2
 
 
 def run(ctx):
